@@ -31,7 +31,12 @@ theorem sim (cfg : Cfg) (stk : List Triple) (col : Int) (left : Int)
     have hcat : Classic (.cat ds) := hc.head
     cases hcat with
     | cat hds => exact ih _ (AllClassic.pushAll hds hc.tail) (by simpa [fitsE_cat h0] using h) h0
-  | case7 col i m r d ih => exact absurd (hc.head : Classic (.align d)) (by intro h; cases h)
+  | case7 col i m r d ih =>
+    have ha : Classic (.align d) := hc.head
+    cases ha with
+    | align hd =>
+      exact ih _ (AllClassic.cons (it := .doc _) (classic_alignAt hd) hc.tail)
+        (by simpa [fitsE_align h0, fitsE_alignAt h0] using h) h0
   | case8 col i m r sp ih => exact absurd (hc.head : Classic (.pstr sp)) (by intro h; cases h)
   | case9 col i m r a d ih =>
     have hann : Classic (.ann a d) := hc.head
